@@ -18,11 +18,15 @@ THEOREMS = [
     'Sourcer.C04_skip_maximal',
     'Tie.implFlags_sound',
     'Tie.impl_refines',
+    'Sourcer.C04_lengthening',
+    'Sourcer.C04_reindexing',
 ]
 TIE_MODULES = ['Tie.Flags']
 ASSUMPTIONS = [
     'start rule = the rule named start (any capitalisation); grammars without one are outside the check',
-    'the lengthening clause is exercised on the implementation only (C04_lengthening_statement is a visible, unproved def)',
+    'C04_lengthening is proved for one doubled character under explicit hypotheses on the tokens (literals do not contain it, token regexes neither match nor look at it, '
+    'ignore regexes end at corresponding positions, no Backtrack); that a concrete regular expression satisfies RxStable / IgnoreAlts is a fact about the matcher (a parameter of the '
+    'model) and is exercised by the lengthening correspondence on the implementation',
 ]
 
 # ignore declaration sets: (list of (name|None, expr), ignorable characters, position 'before'|'after'|'split')
